@@ -148,7 +148,7 @@ func c06Alphabet() []c06op {
 			ops = append(ops, c06op{Kind: "squeeze", Batch: b, N: n})
 		}
 	}
-	ops = append(ops, c06op{Kind: "clone"}, c06op{Kind: "reset"})
+	ops = append(ops, c06op{Kind: "clone"}, c06op{Kind: "swap"}, c06op{Kind: "reset"})
 	for _, bad := range []string{"absorb-batch-0", "absorb-batch-65", "absorb-len-242", "absorb-len-244", "squeeze-batch-0", "squeeze-batch-65", "squeeze-len-242", "squeeze-len-244"} {
 		ops = append(ops, c06op{Kind: "bad", Bad: bad})
 	}
@@ -225,6 +225,11 @@ func (r *c06run) apply(op c06op) {
 	case "reset":
 		in.real.Reset()
 		in.model = c06model{}
+	case "swap":
+		// continue on the instance most recently left behind by a clone; the current one is left behind instead
+		if n := len(r.shadows); n > 0 {
+			r.shadows[n-1], r.cur = r.cur, r.shadows[n-1]
+		}
 	case "clone":
 		cl := in.real.Clone()
 		if cl == in.real {
@@ -392,7 +397,7 @@ func runC06(c *core.Ctx, child bool) {
 		fmt.Sscan(d, &depth)
 	}
 	ops := c06Alphabet()
-	c.Rule = fmt.Sprintf("breadth-first search over all histories of depth <= %d over %d operations (Absorb batch {1,2,63,64} x {0,1,2} blocks, Squeeze batch {1,2,63,64} x {0,1,2} blocks, Clone, Reset, 8 rejected calls) on the real object, de-duplicated on the hash of all live instances' states; after every step every lane of every live instance is compared with 64 independent one-lane reference sponges; plus the one-hot family (lane v differs, every v) and the same search in the purego build", depth, len(ops))
+	c.Rule = fmt.Sprintf("breadth-first search over all histories of depth <= %d over %d operations (Absorb batch {1,2,63,64} x {0,1,2} blocks, Squeeze batch {1,2,63,64} x {0,1,2} blocks, Clone, Swap (continue on the instance left behind), Reset, 8 rejected calls) plus a deeper search (depth 6, thorough 7) over a reduced alphabet in which original and clones continue in every order, plus sparse blocks (one non-zero trit at every position) on the real object, de-duplicated on the hash of all live instances' states; after every step every lane of every live instance is compared with 64 independent one-lane reference sponges; plus the one-hot family (lane v differs, every v) and the same search in the purego build", depth, len(ops))
 	ref := newC06Ref()
 	seen := map[string]bool{}
 	var states, transitions, traces int64
@@ -485,6 +490,70 @@ func runC06(c *core.Ctx, child bool) {
 		}
 		frontier = next
 	}
+	// second search: clone interplay. A reduced alphabet (two batch sizes, one block, clone, swap, reset) explored deeper:
+	// original and clone both continue, in every order, and every instance is compared with its own model after every step.
+	{
+		small := []c06op{{Kind: "absorb", Batch: 1, N: 1}, {Kind: "absorb", Batch: 2, N: 1}, {Kind: "squeeze", Batch: 2, N: 1}, {Kind: "clone"}, {Kind: "swap"}, {Kind: "reset"}}
+		deep := 6
+		if c.Thorough() {
+			deep = 7
+		}
+		seen2 := map[string]bool{}
+		front := [][]c06op{{}}
+		for d := 1; d <= deep && len(front) > 0; d++ {
+			type cand struct {
+				hist   []c06op
+				key    string
+				failed bool
+			}
+			var cands []cand
+			for _, h := range front {
+				nClones := 0
+				for _, o := range h {
+					if o.Kind == "clone" {
+						nClones++
+					}
+				}
+				for _, o := range small {
+					if o.Kind == "clone" && nClones >= 2 {
+						continue // at most three live instances
+					}
+					if o.Kind == "swap" && nClones == 0 {
+						continue
+					}
+					cands = append(cands, cand{hist: append(append([]c06op{}, h...), o)})
+				}
+			}
+			core.Par(len(cands), func(i int) {
+				r := c06Exec(c, ref, cands[i].hist, len(cands[i].hist)-1)
+				cands[i].failed = r.failed
+				if !r.failed {
+					cands[i].key = keyOf(r)
+				}
+			})
+			var next [][]c06op
+			for i := range cands {
+				transitions++
+				traces++
+				c.Eval(1)
+				if cands[i].failed {
+					continue
+				}
+				if !seen2[cands[i].key] {
+					seen2[cands[i].key] = true
+					states++
+					next = append(next, cands[i].hist)
+				}
+			}
+			front = next
+			if c.OverBudget() {
+				c.Set("cap_clone_interplay", fmt.Sprintf("time budget hit at depth %d", d))
+				break
+			}
+		}
+		c.Set("clone_interplay_depth", int64(deep))
+		c.Set("clone_interplay_states", int64(len(seen2)))
+	}
 	c.Sample(map[string]interface{}{"history": []string{"absorb(batch=2,blocks=1)", "clone", "squeeze(batch=63,blocks=2)", "absorb(batch=1,blocks=1) [must be refused]"}})
 
 	// ---- one-hot family: lane v carries pattern 1, all others pattern 0 ----
@@ -530,6 +599,60 @@ func runC06(c *core.Ctx, child bool) {
 				}
 			}
 			total.Write(int8bytes(dst[v]))
+		}
+	}
+	// ---- sparse blocks: all zero except one trit (every position, both signs) or except the last k trits ----
+	{
+		var blocks [][243]int8
+		for p := 0; p < 243; p++ {
+			for _, v := range []int8{1, -1} {
+				var b [243]int8
+				b[p] = v
+				blocks = append(blocks, b)
+			}
+		}
+		for k := 1; k <= 9; k++ {
+			var b [243]int8
+			for i := 243 - k; i < 243; i++ {
+				b[i] = int8(1 - 2*(i%2))
+			}
+			blocks = append(blocks, b)
+		}
+		blocks = append(blocks, [243]int8{})
+		bad := make([]int, len(blocks))
+		core.Par(len(blocks), func(i int) {
+			b := blocks[i]
+			cu := curl.NewCurlP81()
+			src := []trinary.Trits{make(trinary.Trits, 486), make(trinary.Trits, 486), make(trinary.Trits, 486)}
+			copy(src[1][243:], b[:]) // lane 1, second block; lanes 0 and 2 carry the pattern of block 0 twice
+			copy(src[0], c06Blocks[0][:])
+			copy(src[2], c06Blocks[0][:])
+			copy(src[1], c06Blocks[2][:])
+			if err := cu.Absorb(src, 486); err != nil {
+				bad[i] = 1
+				return
+			}
+			dst := make([]trinary.Trits, 3)
+			if err := cu.Squeeze(dst, 243); err != nil {
+				bad[i] = 1
+				return
+			}
+			var st c06lane
+			copy(st[:243], c06Blocks[2][:])
+			refcurl.Transform(&st)
+			copy(st[:243], b[:])
+			refcurl.Transform(&st)
+			if !bytes.Equal(int8bytes(dst[1]), int8bytes(st[:243])) {
+				bad[i] = 2
+			}
+		})
+		for i, v := range bad {
+			transitions += 2
+			traces++
+			c.Eval(1)
+			if v != 0 {
+				c.Violate("C06/sparse-block/lane-output", fmt.Sprintf("lane 1 absorbs a second block that is zero except %v: its output differs from the independent Curl-P-81 sponge", nonZero(blocks[i])), nonZero(blocks[i]), "", nil)
+			}
 		}
 	}
 	c.Sample(map[string]interface{}{"one_hot": "lane 37 absorbs pattern 1, lanes 0..36,38..63 pattern 0; 2 blocks in, 2 blocks out; all 64 lanes compared"})
@@ -584,4 +707,14 @@ func runC06(c *core.Ctx, child bool) {
 	}
 	c.SetExhaustive(exhaustive)
 	c.Assume = []string{"one-lane Curl-P-81 reference (bitexec/refcurl), validated against testdata/curlp81.json and iota.go's curl at start-up", "state key = hash of the bit-sliced states of all live instances + direction: the object has no other state"}
+}
+
+func nonZero(b [243]int8) map[int]int8 {
+	m := map[int]int8{}
+	for i, v := range b {
+		if v != 0 {
+			m[i] = v
+		}
+	}
+	return m
 }
